@@ -2,8 +2,9 @@
 (* Case generator for C11 (abstract cases; checks/c11.py renders them to      *)
 (* bytes, TraceOptions re-tokenises the bytes, so nothing depends on the      *)
 (* rendering being faithful to the class).                                    *)
-(*  cls   every sequence of lexical classes up to MaxLen, plus the longer     *)
-(*        ones that start like an assignment to a string option:              *)
+(*  cls   every sequence of lexical classes up to MaxLen, those starting with  *)
+(*        an option name up to NameLen, plus the longer ones that start like  *)
+(*        an assignment to a string option:                                   *)
 (*          K name of an int / real / wildcard option   S name of a string    *)
 (*          option   F flag name   U unknown word   _ blanks   = ? q (quote)  *)
 (*          n number   w word   x junk bytes (non-ASCII, control, very long)  *)
@@ -13,13 +14,16 @@
 (*        the executable name known or not; items: assignments of two values  *)
 (*        to every option type, queries, an unknown name, a value to a flag.  *)
 EXTENDS Integers, Sequences, Json, TLC
-CONSTANTS MaxLen, MaxSteps
+CONSTANTS MaxLen,      \* all class sequences up to this length
+          NameLen,     \* ... and those starting with an option name up to this length
+          MaxSteps
 VARIABLE c
 
 Classes == {"K", "S", "F", "U", "_", "=", "?", "q", "n", "w", "x"}
 Seqs(S, lo, hi) == UNION {[1..n -> S] : n \in lo..hi}
 ClsCases ==
   {[fam |-> "cls", s |-> s] : s \in Seqs(Classes, 1, MaxLen)}
+  \cup {[fam |-> "cls", s |-> <<n>> \o s] : n \in {"K", "S", "F", "U"}, s \in Seqs(Classes, MaxLen, NameLen - 1)}
   \cup {[fam |-> "cls", s |-> p \o s] : p \in {<<"S", "=">>, <<"S", "_">>}, s \in Seqs(Classes, MaxLen - 1, MaxLen - 1)}
   \cup {[fam |-> "cls", s |-> <<"S", "=", "q">> \o s] : s \in Seqs(Classes, MaxLen - 1, MaxLen - 1)}
 
